@@ -70,7 +70,7 @@ class ContentsFile(contentsSet):
                     gid=os_data.root_gid,
                     perms=0o644,
                 )
-            return readlines_utf8(self._source, True)
+            return readlines_utf8(self._source, False)
         fobj = self._source.text_fileobj(writable=write)
         if write:
             fobj.seek(0, 0)
@@ -83,6 +83,8 @@ class ContentsFile(contentsSet):
     def _iter_contents(self):
         self.clear()
         for line in self._get_fd():
+            # only the line terminator goes: a path may end in whitespace
+            line = line.rstrip("\n")
             if not line:
                 continue
             s = line.split(" ")
